@@ -157,7 +157,7 @@ def receiver_run(stream_chunks, nmsgs, nthreads, schedule, share):
     def worker(i, k):
         for _ in range(k):
             try:
-                got[i].append(ws.recv_data()[1])
+                got[i].append(ws.recv())
             except Exception as e:  # noqa
                 got[i].append("X:" + common.canon_exc(e))
     for i in range(nthreads):
@@ -168,7 +168,7 @@ def receiver_run(stream_chunks, nmsgs, nthreads, schedule, share):
 
 def run_receivers(ctx):
     rnd = ctx.rng("receivers")
-    n = 800 if ctx.thorough() else 150
+    n = 2400 if ctx.thorough() else 450
     for it in range(n):
         nthreads = rnd.randint(2, 3)
         nmsgs = rnd.randint(nthreads, 5)
@@ -182,7 +182,18 @@ def run_receivers(ctx):
         share = [1] * nthreads
         for _ in range(nmsgs - nthreads):
             share[rnd.randrange(nthreads)] += 1
-        sched = [rnd.randrange(nthreads) for _ in range(rnd.randint(0, 120))]
+        mode = it % 3
+        if mode == 0:
+            sched = [rnd.randrange(nthreads) for _ in range(rnd.randint(0, 120))]
+        elif mode == 1:
+            # bursty: each thread runs for a while before the next one is scheduled
+            sched = []
+            while len(sched) < 150:
+                sched += [rnd.randrange(nthreads)] * rnd.randint(1, 25)
+        else:
+            # one preemption: thread a runs k steps, then thread b runs to completion, then the rest
+            a, b_ = rnd.sample(range(nthreads), 2)
+            sched = [a] * rnd.randint(0, 40) + [b_] * 400
         got, eff, wire = receiver_run(chunks, nmsgs, nthreads, sched, share)
         switches = sum(1 for a, b_ in zip(eff, eff[1:]) if a != b_)
         ctx.case(key=("rx", it, tuple(eff[:40])), nontrivial=switches > 1,
